@@ -110,7 +110,7 @@ def run(ctx):
         violation(ctx, "vtcache_%d.json" % ctx.seed, vt_fail, no_failing_input=vt_tie)
     # --- histories
     nblocks = 24 if quick else 160
-    cycles = 4 if quick else 40
+    cycles = 5 if quick else 40
     blocks, plan = [], []
     fresh_lines = {}
     for bi in range(nblocks):
@@ -219,9 +219,11 @@ def run(ctx):
     grow = []
     for b, per in mems.items():
         last = max(per)
-        # cycle 0 is the warm-up (not every build has run yet); from cycle 1 on the same rounds repeat
-        if last >= 2 and any(x > y for x, y in zip(per[last], per[1])):
-            grow.append((b, per[1], per[last]))
+        # cycles 0 and 1 are the warm-up: in cycle 0 not every build has run yet, and with buffer reduction the sizes a reset leaves depend on the
+        # previous cycle, so the first sample of cycle 1 can still be below the level the history settles at; from cycle 2 on the same rounds
+        # repeat from the same state, and anything that still grows afterwards grows with the number of earlier builds
+        if last >= 3 and any(x > y for x, y in zip(per[last], per[2])):
+            grow.append((b, per[2], per[last]))
     if grow:
         b, m1, m2 = grow[0]
         k = [i for i, l in enumerate(flat) if l.startswith("fresh ")][b]
@@ -256,7 +258,7 @@ def run(ctx):
                 "rounds of [reset; prefix activity in {nothing, completed build, build abandoned after k API calls, k-th allocation fails (once/from then on), "
                 "k-th emit fails, abandoned build + open user frame, 10..200 tables left open}; reset (reduce 0/1); footprint; build X] repeated for "
                 "%d cycles; every `build X` must equal a fresh C builder's output under the same settings and (no limits) the Lean model's fresh build; "
-                "footprint after reset in the last cycle must not exceed cycle 1. default_alloc growth policy vs model on random request sequences." % cycles,
+                "footprint after reset in the last cycle must not exceed cycle 2 (cycles 0 and 1 warm up the buffer-reduction heuristic). default_alloc growth policy vs model on random request sequences." % cycles,
         "refmap_reset_histories": rm_lines, "vtable_cache_unit": vt_stats, "blocks": len(blocks), "cycles": cycles, "builds_after_reset": nbuild, "ops": kinds, "alloc_sequences": len(alines),
         "footprint_samples": sum(len(v) for per in mems.values() for v in per.values()),
         "traces_validated_against_impl": nbuild + len(alines), "correspondence_disagreements": len(corr) + len(aidx), "spec_oracle_failures": len(spec) + len(grow)})
